@@ -9,10 +9,12 @@
    [slice]) whose failure is the explicit outcome [Panic]; the theorems show it
    never arises.
 
-   External behaviour: net/url (ParseRequestURI + the trailing-':' host fix +
-   URL.String) is the Section variable [url_norm]; nothing is assumed about it
-   except, for the round-trip theorems, the law  url_norm u = Some u  on the
-   URLs of the emitted messages.
+   External behaviour: net/url's parser (url.ParseRequestURI) is the Section variable
+   [url_parse : bytes -> option gourl]; nothing is assumed about it except, for the
+   round-trip theorems, the law  url_parse (URL.String() of the emitted URL) = that URL.
+   What ipchub itself does to the parsed URL (dropping a dangling ':' after the host) is
+   modelled ([fix_host]), and so are URL.String / Hostname / Port on the URL grammar
+   ([gourl_string], [split_host_port]); URLs as structured values are [surl].
 
    This is the REPAIRED behaviour (D26): a line longer than [max_line] or a
    Content-Length above [max_body] is an error, a body cut short is an error,
@@ -291,15 +293,209 @@ Definition read_body_lim (lim : option Z) (pad : bool) (h : header) (s : bytes) 
   else Ok (take_n (Z.to_nat cl) s) (skipn (Z.to_nat cl) s).
 Definition read_body : header -> bytes -> res bytes := read_body_lim (Some max_body) false.
 
+(* ---- URLs ---- *)
+(* the fields of a parsed url.URL that RTSP uses; g_user is URL.User.String() when a userinfo
+   is present, g_query is RawQuery when a '?' is present (ForceQuery for an empty one) *)
+Record gourl := { g_scheme : bytes; g_user : option bytes; g_host : bytes; g_path : bytes;
+                  g_query : option bytes }.
+
+Definition RBRACK : Z := 93.
+Definition LBRACK : Z := 91.
+Definition PERCENT : Z := 37.
+
+(* strings.LastIndex with a one-byte needle *)
+Fixpoint last_index_from (c : Z) (s : bytes) (i acc : Z) : Z :=
+  match s with
+  | [] => acc
+  | x :: s' => last_index_from c s' (i + 1) (if x =? c then i else acc)
+  end.
+Definition last_index (c : Z) (s : bytes) : Z := last_index_from c s 0 (-1).
+
+(* strings.TrimSuffix(h, ":") *)
+Fixpoint trim_suffix_colon (h : bytes) : bytes :=
+  match h with
+  | [] => []
+  | c :: h' => match h' with
+               | [] => if c =? COLON then [] else [c]
+               | _ => c :: trim_suffix_colon h'
+               end
+  end.
+
+(* request.go, ReadRequest:
+     if strings.LastIndex(Host, ":") > strings.LastIndex(Host, "]") { Host = strings.TrimSuffix(Host, ":") } *)
+Definition fix_host (h : bytes) : bytes :=
+  if last_index COLON h >? last_index RBRACK h then trim_suffix_colon h else h.
+Definition fix_url (g : gourl) : gourl :=
+  {| g_scheme := g_scheme g; g_user := g_user g; g_host := fix_host (g_host g); g_path := g_path g;
+     g_query := g_query g |}.
+
+(* net/url on the grammar: URL.String().  The only byte of a host of the grammar that is
+   escaped is the '%' in front of an IPv6 zone. *)
+Definition escape_host (h : bytes) : bytes :=
+  flat_map (fun c => if c =? PERCENT then [37; 50; 53] else [c]) h.
+Definition is_nil {A} (l : list A) : bool := match l with [] => true | _ => false end.
+Definition gourl_string (g : gourl) : bytes :=
+  (if is_nil (g_scheme g) then [] else g_scheme g ++ [COLON]) ++
+  (if negb (is_nil (g_scheme g)) || negb (is_nil (g_host g)) || (match g_user g with Some _ => true | None => false end)
+   then (if negb (is_nil (g_host g)) || negb (is_nil (g_path g)) || (match g_user g with Some _ => true | None => false end)
+         then [SLASH; SLASH] else []) ++
+        (match g_user g with Some ui => ui ++ [64] | None => [] end) ++ escape_host (g_host g)
+   else []) ++
+  (match g_path g with
+   | c :: _ => if negb (c =? SLASH) && negb (is_nil (g_host g)) then [SLASH] else []
+   | [] => []
+   end) ++ g_path g ++
+  (match g_query g with Some q => 63 :: q | None => [] end).
+
+(* net/url: validOptionalPort, splitHostPort = (URL.Hostname(), URL.Port()) *)
+Definition valid_optional_port (p : bytes) : bool :=
+  match p with
+  | [] => true
+  | c :: ds => (c =? COLON) && forallb is_digit ds
+  end.
+Definition strip_brackets (h : bytes) : bytes :=
+  match h with
+  | c :: h' => if (c =? LBRACK) && ends_with RBRACK h then removelast h' else h
+  | [] => h
+  end.
+Definition split_host_port (hp : bytes) : bytes * bytes :=
+  let colon := last_index COLON hp in
+  let '(h, p) := if negb (colon =? -1) && valid_optional_port (drop colon hp)
+                 then (take colon hp, drop (colon + 1) hp) else (hp, []) in
+  (strip_brackets h, p).
+
+(* URLs as structured values: what a client can put on the request line *)
+Inductive shost :=
+| HName (n : bytes)                         (* reg-name or IPv4 *)
+| HV6 (addr : bytes) (zone : option bytes). (* "[" addr [ "%25" zone ] "]" *)
+Record sauth := { a_user : option (bytes * option bytes); a_host : shost; a_port : option bytes }.
+Inductive surl :=
+| SStar
+| SPath (path : bytes) (query : option bytes)
+| SAbs (scheme : bytes) (au : sauth) (path : bytes) (query : option bytes).
+
+(* url.URL.Host of the parsed authority: the IPv6 literal keeps its brackets, the zone is unescaped *)
+Definition host_bytes (h : shost) : bytes :=
+  match h with
+  | HName n => n
+  | HV6 a z => LBRACK :: a ++ (match z with Some z => PERCENT :: z | None => [] end) ++ [RBRACK]
+  end.
+Definition go_host (au : sauth) : bytes :=
+  host_bytes (a_host au) ++ match a_port au with Some p => COLON :: p | None => [] end.
+Definition userinfo_bytes (u : bytes * option bytes) : bytes :=
+  fst u ++ match snd u with Some pw => COLON :: pw | None => [] end.
+Definition gourl_of (u : surl) : gourl :=
+  match u with
+  | SStar => {| g_scheme := []; g_user := None; g_host := []; g_path := [42]; g_query := None |}
+  | SPath p q => {| g_scheme := []; g_user := None; g_host := []; g_path := p; g_query := q |}
+  | SAbs sc au p q =>
+      {| g_scheme := sc; g_user := option_map userinfo_bytes (a_user au); g_host := go_host au;
+         g_path := p; g_query := q |}
+  end.
+Definition surl_print (u : surl) : bytes := gourl_string (gourl_of u).
+
+(* the one thing ReadRequest may change: an empty port (dangling ':') is dropped *)
+Definition drop_empty_port_au (au : sauth) : sauth :=
+  match a_port au with
+  | Some [] => {| a_user := a_user au; a_host := a_host au; a_port := None |}
+  | _ => au
+  end.
+Definition drop_empty_port (u : surl) : surl :=
+  match u with
+  | SAbs sc au p q => SAbs sc (drop_empty_port_au au) p q
+  | _ => u
+  end.
+(* what Hostname() and Port() of the parsed request have to answer *)
+Definition host_text (h : shost) : bytes :=
+  match h with
+  | HName n => n
+  | HV6 a z => a ++ (match z with Some z => PERCENT :: z | None => [] end)
+  end.
+Definition port_text (au : sauth) : bytes := match a_port au with Some p => p | None => [] end.
+
+(* character classes of the grammar *)
+Definition is_alnum (c : Z) : bool :=
+  is_digit c || ((65 <=? c) && (c <=? 90)) || ((97 <=? c) && (c <=? 122)).
+Definition is_unreserved (c : Z) : bool := is_alnum c || (c =? 45) || (c =? 46) || (c =? 95) || (c =? 126).
+Definition is_v6char (c : Z) : bool :=
+  is_digit c || ((65 <=? c) && (c <=? 70)) || ((97 <=? c) && (c <=? 102)) || (c =? COLON) || (c =? 46).
+Definition host_wf (h : shost) : bool :=
+  match h with
+  | HName n => negb (is_nil n) && forallb is_unreserved n
+  | HV6 a z => negb (is_nil a) && forallb is_v6char a &&
+               match z with Some z => negb (is_nil z) && forallb is_unreserved z | None => true end
+  end.
+Definition auth_wf (au : sauth) : bool :=
+  host_wf (a_host au) &&
+  match a_port au with Some p => forallb is_digit p | None => true end &&
+  match a_user au with
+  | Some (u, pw) => forallb is_unreserved u &&
+                    match pw with Some pw => forallb is_unreserved pw | None => true end
+  | None => true
+  end.
+
+Definition surl_wf (u : surl) : bool :=
+  match u with
+  | SAbs sc au p q => auth_wf au
+  | _ => true
+  end.
+
+Definition gourl_eqb (a b : gourl) : bool :=
+  let oeq x y := match x, y with
+                 | Some x, Some y => bytes_eqb x y
+                 | None, None => true
+                 | _, _ => false
+                 end in
+  bytes_eqb (g_scheme a) (g_scheme b) && oeq (g_user a) (g_user b) && bytes_eqb (g_host a) (g_host b) &&
+  bytes_eqb (g_path a) (g_path b) && oeq (g_query a) (g_query b).
+
+(* ---- service/rtsp/pull_client.go NewPullClient: the URL the pull client keeps for its requests ----
+   port := url.Port(); if port == "" { url.Host = net.JoinHostPort(url.Hostname(), "554") }; url.User = nil.
+   [brackets = false] is the code before the repair: url.Hostname() + ":554". *)
+Definition PORT554 : bytes := [53; 53; 52].
+Definition join_host_port (h p : bytes) : bytes :=
+  if existsb (Z.eqb COLON) h then LBRACK :: h ++ RBRACK :: COLON :: p else h ++ COLON :: p.
+Definition pull_host_gen (brackets : bool) (hp : bytes) : bytes :=
+  let '(hn, port) := split_host_port hp in
+  if is_nil port then (if brackets then join_host_port hn PORT554 else hn ++ COLON :: PORT554) else hp.
+Definition pull_url (g : gourl) : gourl :=
+  {| g_scheme := g_scheme g; g_user := None; g_host := pull_host_gen true (g_host g); g_path := g_path g;
+     g_query := g_query g |}.
+(* what that is on the structure: no userinfo, the default port where there was none or an empty one *)
+Definition pull_norm_au (au : sauth) : sauth :=
+  {| a_user := None; a_host := a_host au;
+     a_port := match a_port au with None | Some [] => Some PORT554 | Some p => Some p end |}.
+Definition pull_norm (u : surl) : surl :=
+  match u with SAbs sc au p q => SAbs sc (pull_norm_au au) p q | _ => u end.
+(* an IPv6 literal has a ':' *)
+Definition v6_colon (h : shost) : bool :=
+  match h with HV6 a _ => existsb (Z.eqb COLON) a | HName _ => true end.
+Definition pull_wf (u : surl) : bool :=
+  match u with SAbs sc au p q => auth_wf au && v6_colon (a_host au) | _ => false end.
+(* oracle of the pull-client stream: the URL the client keeps, and the URL of its first request
+   read back by ReadRequest, are the configured URL normalised as above *)
+Definition ok_pull (u : surl) (kept readback : gourl) : bool :=
+  negb (pull_wf u) ||
+  (gourl_eqb kept (gourl_of (pull_norm u)) && gourl_eqb readback (gourl_of (pull_norm u))).
+
+(* oracle for the URL stream: net/url printed and parsed the structured URL as the grammar says,
+   and the URL of the request read back differs from it only by a dropped empty port *)
+Definition ok_url (u : surl) (printed : bytes) (parsed fixed : gourl) : bool :=
+  negb (surl_wf u) ||
+  (bytes_eqb printed (surl_print u) && gourl_eqb parsed (gourl_of u) &&
+   gourl_eqb fixed (gourl_of (drop_empty_port u))).
+
 (* ---- request.go / response.go ---- *)
-Record request := { q_method : bytes; q_url : bytes; q_proto : bytes; q_hdr : header; q_body : bytes }.
+Record request := { q_method : bytes; q_url : gourl; q_proto : bytes; q_hdr : header; q_body : bytes }.
+(* the Request-URI as Request.Write prints it *)
+Definition url_str (q : request) : bytes := gourl_string (q_url q).
 Record response := { p_proto : bytes; p_code : Z; p_status : bytes; p_hdr : header; p_body : bytes }.
 
 Section WithUrl.
-(* url.ParseRequestURI, the trailing-':' host fix, URL.String() *)
-Variable url_norm : bytes -> option bytes.
+(* url.ParseRequestURI *)
+Variable url_norm : bytes -> option gourl.
 
-Definition parse_request_line (line : bytes) : res (bytes * bytes * bytes) :=
+Definition parse_request_line (line : bytes) : res (bytes * gourl * bytes) :=
   let s1 := index_byte SP line in
   match slice line (s1 + 1) (zlen line) with
   | None => Panic
@@ -320,7 +516,7 @@ Definition parse_request_line (line : bytes) : res (bytes * bytes * bytes) :=
               if negb (bytes_eqb method OPTIONS) && bytes_eqb rurl STAR then Err EMalformed else
               match url_norm rurl with
               | None => Err EUrl
-              | Some u => Ok (method, u, proto) []
+              | Some g => Ok (method, fix_url g, proto) []     (* the dangling-':' host fix *)
               end
           end
       | _, _, _ => Panic
@@ -417,7 +613,7 @@ Definition set_cl (h : header) (body : bytes) : header :=
   end.
 
 Definition write_request (q : request) : bytes :=
-  q_method q ++ SP :: q_url q ++ SP :: RTSP10 ++ CRLF ++
+  q_method q ++ SP :: url_str q ++ SP :: RTSP10 ++ CRLF ++
   write_header (set_cl (q_hdr q) (q_body q)) ++ q_body q.
 
 Definition status_table : list (Z * bytes) := Eval vm_compute in
@@ -450,7 +646,7 @@ Definition norm_step (acc : header) (e : bytes * list bytes) : header :=
 Definition norm_hdr (h : header) (body : bytes) : header :=
   fold_left norm_step (hsort (set_cl h body)) [].
 Definition norm_request (q : request) : request :=
-  {| q_method := q_method q; q_url := q_url q; q_proto := RTSP10;
+  {| q_method := q_method q; q_url := fix_url (q_url q); q_proto := RTSP10;
      q_hdr := norm_hdr (q_hdr q) (q_body q); q_body := q_body q |}.
 Definition norm_response (p : response) : response :=
   {| p_proto := RTSP10; p_code := p_code p;
@@ -583,7 +779,7 @@ Definition map_res {A B} (f : A -> B) (r : res A) : res B :=
   match r with Ok a rest => Ok (f a) rest | Err e => Err e | Panic => Panic end.
 
 Section Receive.
-Variable url_norm : bytes -> option bytes.
+Variable url_norm : bytes -> option gourl.
 
 Definition receive (cfg : list Z) (s : bytes) : res event :=
   if zlen s <? 4 then Err EEof else                       (* r.Peek(4) *)
@@ -638,13 +834,13 @@ Definition token_wf (s : bytes) : bool :=
 
 Definition RTSP_ : bytes := [82; 84; 83; 80].
 
-Definition request_wf (url_norm : bytes -> option bytes) (q : request) : bool :=
-  token_wf (q_method q) && token_wf (q_url q) &&
+Definition request_wf (url_norm : bytes -> option gourl) (q : request) : bool :=
+  token_wf (q_method q) && token_wf (url_str q) &&
   negb (match q_method q with c :: _ => c =? DOLLAR | [] => true end) &&
   negb (is_prefix RTSP_ (q_method q)) &&
-  (bytes_eqb (q_method q) OPTIONS || negb (bytes_eqb (q_url q) STAR)) &&
-  match url_norm (q_url q) with Some u => bytes_eqb u (q_url q) | None => false end &&
-  (zlen (q_method q) + zlen (q_url q) + 10 <=? max_line) &&
+  (bytes_eqb (q_method q) OPTIONS || negb (bytes_eqb (url_str q) STAR)) &&
+  match url_norm (url_str q) with Some g => gourl_eqb g (q_url q) | None => false end &&
+  (zlen (q_method q) + zlen (url_str q) + 10 <=? max_line) &&
   hdr_wf (q_hdr q) && (zlen (q_body q) <=? max_body).
 
 Definition response_wf (p : response) : bool :=
@@ -664,7 +860,7 @@ Definition pack_wf (cfg : list Z) (ch : Z) (data : bytes) : bool :=
   end &&
   (if (ch =? 0) || (ch =? 2) then match rtp_hdr_check data with HOk => true | _ => false end else true).
 
-Definition item_wf (url_norm : bytes -> option bytes) (cfg : list Z) (it : item) : bool :=
+Definition item_wf (url_norm : bytes -> option gourl) (cfg : list Z) (it : item) : bool :=
   match it with
   | IReq q => request_wf url_norm q
   | IResp p => response_wf p
@@ -705,7 +901,7 @@ Fixpoint read_all (step : bytes -> res event) (f : nat) (s : bytes) : list (even
 Definition read_stream (step : bytes -> res event) (s : bytes) := read_all step (S (length s)) s.
 
 (* kind 0: the dispatcher; 1..3: ReadRequest / ReadResponse / ReadPacket called directly *)
-Definition stepper (url_norm : bytes -> option bytes) (kind : Z) (cfg : list Z) (s : bytes) : res event :=
+Definition stepper (url_norm : bytes -> option gourl) (kind : Z) (cfg : list Z) (s : bytes) : res event :=
   if kind =? 1 then map_res EvReq (read_request url_norm s)
   else if kind =? 2 then map_res EvResp (read_response s)
   else if kind =? 3 then read_packet cfg s
@@ -717,8 +913,9 @@ Definition stepper (url_norm : bytes -> option bytes) (kind : Z) (cfg : list Z) 
    number of bytes pulled from the connection. *)
 Inductive ofinal := ODone | OErr | OUrlErr | OBad.
 
-Definition url_accept (u : bytes) : option bytes := Some u.
-Definition url_reject (u : bytes) : option bytes := @None bytes.
+Definition url_accept (u : bytes) : option gourl :=
+  Some {| g_scheme := []; g_user := None; g_host := []; g_path := u; g_query := None |}.
+Definition url_reject (u : bytes) : option gourl := @None gourl.
 
 Definition field_eqb (x y : bytes * list bytes) : bool :=
   bytes_eqb (fst x) (fst y) && list_eqb bytes_eqb (snd x) (snd y).
@@ -728,7 +925,7 @@ Definition hdr_eqb (a b : header) : bool := list_eqb field_eqb (hsort a) (hsort 
 Definition event_eqb (with_url : bool) (a b : event) : bool :=
   match a, b with
   | EvReq x, EvReq y =>
-      bytes_eqb (q_method x) (q_method y) && (negb with_url || bytes_eqb (q_url x) (q_url y)) &&
+      bytes_eqb (q_method x) (q_method y) && (negb with_url || gourl_eqb (q_url x) (q_url y)) &&
       bytes_eqb (q_proto x) (q_proto y) && hdr_eqb (q_hdr x) (q_hdr y) && bytes_eqb (q_body x) (q_body y)
   | EvResp x, EvResp y =>
       bytes_eqb (p_proto x) (p_proto y) && (p_code x =? p_code y) && bytes_eqb (p_status x) (p_status y) &&
@@ -785,7 +982,7 @@ Fixpoint obs_events (pos : Z) (s : bytes) (l : list (event * bytes)) : list (eve
   | (ev, rest) :: l' =>
       let pos' := pos + (zlen s - zlen rest) in (ev, pos') :: obs_events pos' rest l'
   end.
-Definition model_obs (url_norm : bytes -> option bytes) (kind : Z) (cfg : list Z) (s : bytes)
+Definition model_obs (url_norm : bytes -> option gourl) (kind : Z) (cfg : list Z) (s : bytes)
   : list (event * Z) * ofinal :=
   let '(l, f) := read_stream (stepper url_norm kind cfg) s in (obs_events 0 s l, obs_final f).
 
@@ -801,11 +998,11 @@ Fixpoint events_match (evs : list (event * Z)) (want : list event) : bool :=
   | _ :: _, [] => false
   end.
 
-Definition ok_items (cfg : list Z) (items : list item) (tail : bytes) (slack : Z)
+Definition ok_items (url : bytes -> option gourl) (cfg : list Z) (items : list item) (tail : bytes) (slack : Z)
            (wire : bytes) (evs : list (event * Z)) (fin : ofinal) (pulled : Z) : bool :=
   let s := concat_items cfg items ++ tail in
   bytes_eqb wire s && ok_raw 0 cfg s slack evs fin pulled &&
-  (if forallb (item_wf url_accept cfg) items
+  (if forallb (item_wf url cfg) items
    then events_match evs (map norm_item items) &&
         match tail with [] => match fin with ODone => true | _ => false end | _ => true end
    else true).
